@@ -840,7 +840,7 @@ def _expand_grid_template(tokens, name):
             slash_separated.append([])
         else:
             slash_separated[-1].append(token)
-    if len(slash_separated) == 2:
+    if len(slash_separated) == 2 and all(slash_separated):
         rows = grid_template(slash_separated[0])
         columns = grid_template(slash_separated[1])
         if columns:
@@ -894,7 +894,7 @@ def expand_grid(tokens, name):
             split_tokens.append([])
             continue
         split_tokens[-1].append(token)
-    if len(split_tokens) != 2:
+    if len(split_tokens) != 2 or not all(split_tokens):
         raise InvalidValues
     auto_track = None
     dense = None
